@@ -46,6 +46,11 @@ import (
 const c18Witness = "slot-dropped-while-owned"
 
 type C18Scenario struct {
+	// Writes / CloseDelayUs are used by the file-handle facet only (c18fh_test.go): every summoner then writes a record
+	// through the instance it got, and every write handle stays open CloseDelayUs longer when it is closed.
+	Writes       bool `json:"writes,omitempty"`
+	CloseDelayUs int  `json:"close_delay_us,omitempty"`
+
 	Persistent bool            `json:"persistent"`
 	Names      int             `json:"names"`
 	Phases     []C18Phase      `json:"phases"`
@@ -248,7 +253,19 @@ type c18Inst struct {
 	closeStart int64       // clock value taken before the first Close()/Destroy() call on it (0 = never)
 	deadRet    int64       // clock value taken after the first Close()/Destroy() call on it returned (0 = never)
 	kind       int         // 1 Close, 2 Destroy: the only teardown kind the harness uses on this instance
+	// wmu orders harness writes through this instance before the begin of its teardown (a write through an instance whose
+	// teardown has begun is C16's recorded trigger write-after-summon-into-dead-instance, not this property's subject)
+	wmu sync.RWMutex
 }
+
+// c18HookSet lets the file-handle facet (built only with the vfs overlay) extend the run.
+type c18HookSet struct {
+	begin       func(c *c18Run, s C18Scenario)
+	afterSummon func(c *c18Run, in *c18Inst, gi int)
+	end         func(c *c18Run, s C18Scenario) *pbt.Outcome
+}
+
+var c18Hooks *c18HookSet
 
 type c18Summon struct {
 	g, name   int
@@ -267,6 +284,7 @@ type c18Run struct {
 	skipped int
 	names   []name.Name
 	h       hydra.Hydra
+	scn     C18Scenario
 }
 
 func (c *c18Run) instOf(sw swamp.Swamp, nm int, ret int64) *c18Inst {
@@ -288,6 +306,7 @@ func (c *c18Run) instOf(sw swamp.Swamp, nm int, ret int64) *c18Inst {
 // before the close decision and uses it afterwards — that is C16's recorded
 // trigger, not this property's.
 func (c *c18Run) teardown(in *c18Inst, kind int, phase int) {
+	in.wmu.Lock() // harness writes through this instance have finished
 	c.mu.Lock()
 	if in.kind == 0 {
 		in.kind = kind
@@ -295,6 +314,7 @@ func (c *c18Run) teardown(in *c18Inst, kind int, phase int) {
 	if in.kind != kind {
 		c.skipped++
 		c.mu.Unlock()
+		in.wmu.Unlock()
 		return
 	}
 	t0 := tick()
@@ -302,6 +322,7 @@ func (c *c18Run) teardown(in *c18Inst, kind int, phase int) {
 		in.closeStart = t0
 	}
 	c.mu.Unlock()
+	in.wmu.Unlock()
 	if kind == 1 {
 		in.sw.Close()
 	} else {
@@ -354,6 +375,9 @@ func (c *c18Run) summon(gi, phase int, g C18G) {
 	c.summons = append(c.summons, rec)
 	c.mu.Unlock()
 	if rec.inst != nil {
+		if c18Hooks != nil && c18Hooks.afterSummon != nil {
+			c18Hooks.afterSummon(c, rec.inst, gi)
+		}
 		if g.HoldUs > 0 {
 			time.Sleep(time.Duration(g.HoldUs) * time.Microsecond)
 		}
@@ -370,6 +394,8 @@ func c18WithRig(f func()) {
 	c18Rig = rig.New(rig.Options{Patterns: []rig.Pattern{
 		{Pattern: "c18m/*/*", InMemory: true, CloseAfterIdleSec: 600},
 		{Pattern: "c18p/*/*", CloseAfterIdleSec: 600, WriteIntervalSec: 1},
+		{Pattern: "c18f/*/*", CloseAfterIdleSec: 600, WriteIntervalSec: 0},
+		{Pattern: "c18g/*/*", CloseAfterIdleSec: 600, WriteIntervalSec: 1},
 	}})
 	defer func() {
 		c18Rig.Cleanup()
@@ -390,6 +416,12 @@ func runC18(s C18Scenario) pbt.Outcome {
 		if s.Persistent {
 			san = "c18p"
 		}
+		if s.Writes {
+			san = "c18f"
+			if s.CloseDelayUs%2 == 1 {
+				san = "c18g" // write interval 1 s
+			}
+		}
 		c.names = append(c.names, name.Load(fmt.Sprintf("%s/r%d/n%d", san, cs, i)))
 	}
 	vsched.Activate(s.Plan, false)
@@ -403,6 +435,10 @@ func runC18(s C18Scenario) pbt.Outcome {
 	}
 	defer deactivate()
 	defer c.cleanup(r)
+	c.scn = s
+	if c18Hooks != nil && c18Hooks.begin != nil {
+		c18Hooks.begin(c, s)
+	}
 
 	for pi, ph := range s.Phases {
 		c.mu.Lock()
@@ -475,7 +511,13 @@ func runC18(s C18Scenario) pbt.Outcome {
 		c.summon(-1, len(s.Phases), C18G{Name: nm})
 	}
 	deactivate()
-	return c.judge(s, rep)
+	o := c.judge(s, rep)
+	if o.Fail == "" && c18Hooks != nil && c18Hooks.end != nil {
+		if v := c18Hooks.end(c, s); v != nil {
+			return *v
+		}
+	}
+	return o
 }
 
 func (c *c18Run) cleanup(r *rig.Rig) {
@@ -492,7 +534,7 @@ func (c *c18Run) cleanup(r *rig.Rig) {
 			r.CloseSwamp(n.Get())
 		}
 		// remove a persistent file, if any
-		if strings.HasPrefix(n.Get(), "c18p/") {
+		if !strings.HasPrefix(n.Get(), "c18m/") {
 			ctx, cancel := context.WithTimeout(context.Background(), 40*time.Second)
 			if sw, err := c.h.SummonSwamp(ctx, rig.Island(n.Get()), n); err == nil && sw != nil {
 				sw.Destroy()
